@@ -9,12 +9,10 @@
     in the reference specification ([add_ok], [reps_ok]); it is tied through
     the acceptance boundary of each of them.
 
-    NOT TIED (inline string literals of a Go function body, no p_ constant; what
-    should be extracted is noted): the keys of the meta map in SubmitObjectPut,
-    contracts/container/contract.go:
-      [k_cid] "cid" :251, [k_oid] "oid" :258, [k_network] "network" :262,
-      [k_size] "size" :266, [k_deleted] "deleted" :267, [k_locked] "locked" :273,
-      [k_validuntil] "validuntil" :279.
+    The keys of the meta map in SubmitObjectPut are inline string literals of the
+    Go function body; they are tied to the function's literal list
+    [p_container_SubmitObjectPut_strlits] (source order).
+    NOT TIED:
     [ctb]'s padding [[0; 0]] / [[0; x]] mirrors the returns of counterToBytes
     (:615, :617), no named constant either.
     Platform constants (not in /repo): [hash256_len] 32 (interop.Hash256Len,
@@ -135,4 +133,11 @@ Proof. vm_compute. reflexivity. Qed.
 Lemma tie_max_reps_reps_ok :
   (reps_ok (Some [p_container_maxNumOfREPs]), reps_ok (Some [p_container_maxNumOfREPs + 1]))
   = (true, false).
+Proof. vm_compute. reflexivity. Qed.
+
+(** * Keys of the object meta map (string literals inside SubmitObjectPut, in source order;
+      the last literal of the function is the notification name) *)
+Lemma tie_meta_keys :
+  [k_cid; k_oid; k_network; k_size; k_deleted; k_locked; k_validuntil]
+  = map bytes_of_string (firstn 7 p_container_SubmitObjectPut_strlits).
 Proof. vm_compute. reflexivity. Qed.
